@@ -19,7 +19,7 @@ DICT = [
     "A1b2C3", "HTTP2Server", "Ipv4Addr6", "i18n", "Base64Url", "_Hidden", "__a1B__", "x", "Z", "aB", "Ab", "AB", "aBC", "ABc", "AbC",
     "Double__Underscore", "Three___Underscores", "Ends1", "N1N2", "A_B_C", "a_b_c", "ABCDef", "ABCdEF", "Café", "Über", "ÉCOLE", "straße",
     "Ñandú", "Σigma", "ΑΒΓdelta", "XÆA12", "R2D2", "C3PO", "OAuth2Token", "JSONWebToken", "GetHTTPResponseCode", "IPhone", "EBay",
-    "Mac10", "Win95OSR2", "A", "B1", "B_1", "B__1", "_1", "_1a", "_a1", "Level99Boss", "PDFLoader", "SimpleXMLParser", "HTMLElement2D",
+    "rustLang", "rrLine2", "r2_d2", "ring_road", "r", "rr", "raw_type", "rType", "Mac10", "Win95OSR2", "A", "B1", "B_1", "B__1", "_1", "_1a", "_a1", "Level99Boss", "PDFLoader", "SimpleXMLParser", "HTMLElement2D",
 ]
 
 
@@ -52,7 +52,7 @@ def buckets(idents, style, size, fold=False):
                 placed = True
                 break
         if not placed:
-            out.append({"ids": [ident], "names": {name, "explicit lit", "ToStr-Lit"}, "raw": {ident}})
+            out.append({"ids": [ident], "names": {name, "explicit lit", "ToStr-Lit", "SameAs_IdentName"}, "raw": {ident, "SameAs_IdentName", "ExplicitSer_Name", "explicitToStr"}})
     return [b["ids"] for b in out]
 
 
@@ -109,6 +109,7 @@ def check(run):
             # two explicitly named variants that must not be re-cased
             vs.insert(len(vs) // 2, Variant(ident="ExplicitSer_Name", serialize=["explicit lit"]))
             vs.append(Variant(ident="explicitToStr", kind="tuple", fields=[Field("u8")], to_string="ToStr-Lit"))
+            vs.insert(1, Variant(ident="SameAs_IdentName", serialize=["SameAs_IdentName"]))    # opting one variant out of the style
             if any(v.ident in ("ExplicitSer_Name", "explicitToStr") for v in vs[:-1] if v.serialize == [] and v.to_string is None and v.ident in b):
                 continue
             specs.append(EnumSpec(name="E%d" % k, variants=vs, serialize_all=style,
